@@ -19,6 +19,8 @@ from cirkit.symbolic.layers import (
     PolynomialLayer,
     SumLayer,
 )
+from cirkit.symbolic.initializers import NormalInitializer
+from cirkit.symbolic.parameters import Parameter, TensorParameter
 from cirkit.utils.scope import Scope
 import cirkit.symbolic.functional as SF
 
@@ -45,7 +47,8 @@ def build(beh, rho, perms=None):
     for i, l in enumerate(L):
         kind, K = l["kind"], l["K"]
         if kind in ("const", "clog"):
-            sl = ConstantValueLayer(K, log_space=(kind == "clog"))
+            sl = ConstantValueLayer(K, log_space=(kind == "clog"),
+                                    value=Parameter.from_input(TensorParameter(K, initializer=NormalInitializer())))
         elif kind == "poly":
             sl = PolynomialLayer(Scope([rho[l["var"] - 1]]), K, degree=1)
         elif not l["ins"]:
@@ -223,7 +226,11 @@ def replay(beh, tier, seed, opts):
                 continue
             # the operator returned: promised structure of the result
             sm, de, sdd, _ = def_flags(out)
-            if not sm or not de:
+            operands_ok = all(def_flags(pool[k - 1])[0] and def_flags(pool[k - 1])[1]
+                              for k in _operands(t))
+            # (evidence, conjugate and concatenate accept circuits that are not smooth or not
+            # decomposable; their results can then not be either)
+            if operands_ok and (not sm or not de):
                 fail("result_not_smooth_decomposable", op=op, pool=i,
                      detail=f"smooth={sm} decomposable={de} (by definition on the result)")
             if "scope" in e:
@@ -287,15 +294,15 @@ def configurations(pid, tier, seed):
     if pid == "C08":
         o8 = dict(o, ops=False)
         return {
-            "a_single": (cfg(Dom=(2, 2, 2), KSet={1}, MaxL=5 if q else 6, MaxIn=3, MaxAr=3,
+            "a_single": (cfg(Dom=(2, 2, 2), KSet={1}, MaxL=5, MaxIn=3, MaxAr=3,
                              InKindSeq=("emb", "const"), InnerKinds={"sum", "had"},
-                             FreeOrder=True, MaxOuts=1, EmitSmall=4, **em(40, 4)), o8),
-            "b_pairs": (cfg(Dom=(2, 2, 2), KSet={1}, MaxL=6 if q else 7, MaxIn=4, MaxAr=3,
-                            MaxBases=2, InKindSeq=("emb",), InnerKinds={"sum", "had"},
-                            FreeOrder=True, MaxOuts=1, EmitSmall=5, **em(400, 20)), o8),
-            "c_multi_out": (cfg(Dom=(2, 2, 2), KSet={1}, MaxL=5, MaxIn=3, MaxAr=2, MaxBases=2,
-                                InKindSeq=("emb",), InnerKinds={"sum", "had"}, FreeOrder=True,
-                                MaxOuts=2, EmitSmall=4, **em(300, 20)), o8),
+                             FreeOrder=True, MaxOuts=1, EmitSmall=3, **em(60, 4)), o8),
+            "b_pairs": (cfg(Dom=(2, 2, 2), KSet={1}, MaxL=6, MaxIn=4, MaxAr=2,
+                            MaxBases=2, InKindSeq=("emb",), InnerKinds={"had"},
+                            FreeOrder=True, MaxOuts=1, EmitSmall=0, **em(10, 1)), o8),
+            "c_pairs_sums": (cfg(Dom=(2, 2, 2), KSet={1}, MaxL=5, MaxIn=3, MaxAr=2, MaxBases=2,
+                                 InKindSeq=("emb",), InnerKinds={"sum", "had"}, FreeOrder=False,
+                                 MaxOuts=2, EmitSmall=0, **em(40, 2)), o8),
         }
     if pid == "C09":
         return {
@@ -303,16 +310,20 @@ def configurations(pid, tier, seed):
                                    InKindSeq=("emb", "poly"), InnerKinds={"sum", "had", "kron"},
                                    MaxOps=1, Invalid=True, DiffK={-1, 0, 1, 2},
                                    OpSet={"integrate", "differentiate", "evidence", "conjugate"},
-                                   EmitOps={1}, MaxOuts=1, EmitSmall=3, **em(40, 4)), o),
-            "b_pairs_multiply": (cfg(Dom=(2, 2, 2), KSet={1}, MaxL=6, MaxIn=4, MaxAr=3,
-                                     MaxBases=2, InKindSeq=("emb",), InnerKinds={"sum", "had"},
+                                   EmitOps={1}, MaxOuts=1, EmitSmall=0, **em(5, 1)), o),
+            "b_pairs_multiply": (cfg(Dom=(2, 2, 2), KSet={1}, MaxL=6, MaxIn=4, MaxAr=2,
+                                     MaxBases=2, InKindSeq=("emb",), InnerKinds={"had"},
                                      FreeOrder=True, MaxOps=1, Invalid=True, OpSet={"multiply"},
-                                     EmitOps={1}, MaxOuts=1, EmitSmall=4, **em(1500, 60)), o),
+                                     EmitOps={1}, MaxOuts=1, EmitSmall=0, **em(40, 4)), o),
             "c_chains": (cfg(Dom=(2, 2), KSet={1, 2}, MaxL=4, MaxIn=2, InKindSeq=("emb",),
                              InnerKinds={"sum", "had", "kron"}, MaxOps=2, Invalid=True,
                              OnlySD=True, MaxDeg=4,
                              OpSet={"integrate", "multiply", "evidence", "conjugate", "concat"},
-                             EmitOps={2}, MaxOuts=2, EmitSmall=2, **em(1500, 60)), o),
+                             EmitOps={2}, MaxOuts=2, EmitSmall=0, **em(500, 50)), o),
+            "d_pairs_sums": (cfg(Dom=(2, 2, 2), KSet={1}, MaxL=5, MaxIn=3, MaxAr=2, MaxBases=2,
+                                 InKindSeq=("emb",), InnerKinds={"sum", "had"}, FreeOrder=False,
+                                 MaxOps=1, Invalid=True, OpSet={"multiply"}, EmitOps={1},
+                                 MaxOuts=2, EmitSmall=0, **em(160, 8)), o),
         }
     raise KeyError(pid)
 
